@@ -235,6 +235,14 @@ def case_result(ctx, rng, idx):
     if not okc:
         return
     bounds = partition(rng, n, k)
+    if t != Result.MISCTYPE and rng.random() < 0.2:
+        # a worker that contributed nothing: an empty chunk somewhere in the split
+        # (for MISC results "the last observation" of an empty chunk is undefined)
+        j = int(rng.integers(0, len(bounds)))
+        bounds = bounds[:j] + [bounds[min(j, len(bounds) - 1)]] + bounds[j:]
+        bounds = sorted(bounds)
+        k = len(bounds) - 1
+        tag["empty_chunk"] = True
     okc, parts = ctx.call("grouping-independent",
                           lambda: [accumulate("r", t, acc, obs[bounds[i]:bounds[i + 1]],
                                               via_create=bool(rng.integers(0, 2)))
